@@ -48,6 +48,13 @@ func patchTreasuresOneSwamp(ctx context.Context, g Gateway, in *hydrapb.PatchTre
 		return nil, false, nil
 	}
 
+	for _, patch := range in.GetPatches() {
+		if !isValidKey(patch.GetKey()) {
+			// CreateIfNotExist would acknowledge a record the storage writer refuses at flush time
+			return nil, false, status.Error(codes.InvalidArgument, "Key must be between 1 and 65535 bytes long")
+		}
+	}
+
 	// Cap validation runs before swamp summon so a malformed Cap is
 	// surfaced as InvalidArgument regardless of swamp existence.
 	bodyCapPred, bodyCapMax, capErr := buildBodyCapPredicate(in.GetCap())
